@@ -184,10 +184,46 @@ def aty_tail(t):
     return "%s %d" % (n, ord(t[0]) if t else 0)
 
 
+class Hang(BaseException):
+    """raised by the watchdog inside a library call that does not return (BaseException: no handler in the library
+    or in the harness catches it by accident)"""
+
+
+import signal as _signal
+
+
+class watchdog:
+    """with watchdog(seconds): ...   -> raises Hang inside the block when it runs longer (main thread only; in other
+    threads it is a no-op)."""
+
+    def __init__(self, seconds=30.0):
+        self.seconds = seconds
+        self.armed = False
+
+    def _fire(self, signum, frame):
+        raise Hang("no return within %.0f s" % self.seconds)
+
+    def __enter__(self):
+        if _threading.current_thread() is _threading.main_thread():
+            self.old = _signal.signal(_signal.SIGALRM, self._fire)
+            _signal.setitimer(_signal.ITIMER_REAL, self.seconds)
+            self.armed = True
+        return self
+
+    def __exit__(self, *a):
+        if self.armed:
+            _signal.setitimer(_signal.ITIMER_REAL, 0)
+            _signal.signal(_signal.SIGALRM, self.old)
+        return False
+
+
 def impl_exec(line):
     t = line.split()
     try:
-        return _exec(t)
+        with watchdog(60.0):
+            return _exec(t)
+    except Hang:
+        return "RAISE HANG"
     except Exception as e:  # pylint: disable=broad-except
         return "RAISE " + exn_name(e)
 
